@@ -174,7 +174,7 @@ def run(ctx):
     from whoosh import query, sorting
     from vf import model, refscore
     model.check_analysis()
-    for idx in ctx.cases(quick=40, thorough=320):
+    for idx in ctx.cases(quick=90, thorough=360):
         rng = ctx.rng(idx)
         ctx.reseed_global(idx)
         h = model.gen_history(rng, ndocs=(3, 60), boosts=rng.random() < 0.5, maxlen=rng.choice([6, 14, 40]), burst=rng.choice([0.0, 0.1]),
